@@ -107,10 +107,16 @@ impl Check for SimCheck {
     fn repeats(&self) -> usize {
         3
     }
+    fn max_shrink_iters(&self) -> u32 {
+        1500
+    }
     fn parts(&self, tier: Tier) -> Vec<Part> {
         let mut v = vec![Part { name: "hist", kind: PartKind::Random { cases: tier.pick(self.quick, self.thorough), main: 120, ops: 7, oplen: 40, sched: 60 } }];
         if ["C01", "C04", "C05", "C06"].contains(&self.id) {
             v.push(Part { name: "schedules", kind: PartKind::Random { cases: tier.pick(400, 6000), main: 80, ops: 2, oplen: 40, sched: 30 } });
+        }
+        if ["C02", "C03", "C05"].contains(&self.id) {
+            v.push(Part { name: "bb-incr", kind: PartKind::Random { cases: tier.pick(160, 3000), main: 100, ops: 5, oplen: 40, sched: 0 } });
         }
         if self.id == "C19" {
             v.push(Part { name: "pty", kind: PartKind::Random { cases: tier.pick(24, 300), main: 200, ops: 0, oplen: 0, sched: 0 } });
@@ -128,6 +134,9 @@ impl Check for SimCheck {
         v
     }
     fn run_random(&mut self, _part: &str, case: &Case, env: &mut Env) -> CaseOut {
+        if _part == "bb-incr" {
+            return crate::bb::incr::run_incr_case(case, env, self.id);
+        }
         if _part == "pty" {
             let mut out = crate::bb::pty::run_pty_case(case, env, false);
             out.viols.sort_by_key(|v| v.prop != "C19");
